@@ -128,7 +128,7 @@ class Ctx:
 
 DEFAULT_WEIGHTS = {
     "direct": 5, "reuse": 2, "object": 5, "callback": 3, "returned": 2, "variable": 2, "list": 2, "dict": 1,
-    "field": 2, "recursion": 2, "mutual": 2, "nested": 1, "static": 1, "param_object": 1, "returned_object": 1, "try": 1, "kwcallback": 3, "twocand": 4,
+    "field": 2, "recursion": 2, "mutual": 2, "nested": 1, "static": 1, "param_object": 1, "returned_object": 1, "try": 1, "kwcallback": 3, "twocand": 4, "multitarget": 4, "reexport": 4,
 }
 
 
@@ -136,7 +136,7 @@ class Gen:
     def __init__(self, rng, tag, n_files=None, entry_mode=None, budget=None, weights=None, package=None):
         self.rng = rng
         self.tag = tag
-        self.n_files = n_files if n_files is not None else rng.choice([1, 1, 2, 2, 3, 4])
+        self.n_files = n_files if n_files is not None else rng.choice([1, 1, 2, 2, 3, 3, 4])
         self.entry_mode = entry_mode or rng.choice(["unit_init", "unit_init", "method"])
         self.budget = budget if budget is not None else rng.randint(10, 26)
         self.weights = dict(weights or DEFAULT_WEIGHTS)
@@ -547,6 +547,131 @@ class Gen:
             g, gexpr, gform = self.plain_callee(ctx, depth, "cb")
             self.value_access[g.qual] = gform.ref
             self.call_line(ctx, f"{hexpr}({gexpr}, {self.arg(ctx)})", self.nsite(hform, h.qual))
+
+    def e_multitarget(self, ctx, depth):
+        """ONE call statement with TWO targets (a function variable assigned in both arms of an if; a method on a receiver that is a
+        base-class or an overriding-subclass instance); each target calls THROUGH its parameter (a callback, or a method of the
+        object it is given). The driver runs twice (flag 1 and 0), so both targets and both inner calls really happen."""
+        rng = self.rng
+        how = rng.choice(["function-variable", "method-of-base-or-override"])
+        through = rng.choice(["callback-parameter", "method-on-parameter-object"])
+        t = self.pick_mod(ctx.mod)
+        hid = self.name("h")
+        pick = Func(self.name("pick"), ["flag"], t)
+        b = pick.body
+        pctx = Ctx(t, b, pick)
+        # what is handed to the targets
+        if through == "callback-parameter":
+            g, gexpr, gform = self.plain_callee(pctx, depth, "mt")
+            self.value_access[g.qual] = gform.ref
+            inner_callee, argexpr, argdeps = g.qual, gexpr, []
+            inner_text = "r = p({})"
+        else:
+            pc = Class(self.name("K"), t)
+            t.decls.append(pc)
+            self.classes.append(pc)
+            init = Func("__init__", ["self", "a"], t, cls=pc)
+            init.body.add(f"self.fa_{hid} = a")
+            init.ret = None
+            pm = Func(f"pm_{hid}", ["self", "x"], t, cls=pc)
+            pm.ret = "1"
+            pc.methods += [init, pm]
+            self.class_forms.setdefault(pc.name, []).append({"form": "local", "file": t.relpath, "name": pc.name})
+            cs = self.site("constructor", f"{pc.name}.__init__", recv=pc.name)
+            b.add(f"q = {pc.name}(1)", cs)
+            inner_callee, argexpr, argdeps = pm.qual, "q", [cs]
+            inner_text = "r = p." + pm.name + "({})"
+        kind_in = f"call-through-parameter-of-one-of-two-targets/{how}/{through}"
+        if how == "function-variable":
+            targets = []
+            for which, n in (("first", 1), ("second", 2)):
+                a = Func(self.name("tgt"), ["p"], t)
+                t.decls.append(a)
+                a.body.add(inner_text.format(n), self.site(f"{kind_in}/in-{which}-target", inner_callee, deps=argdeps))
+                a.ret = "r"
+                self.cand_role[a.qual] = which
+                targets.append(a)
+            b.add("if flag > 0:")
+            b.ind += 1; b.add(f"h = {targets[0].name}"); b.ind -= 1
+            b.add("else:")
+            b.ind += 1; b.add(f"h = {targets[1].name}"); b.ind -= 1
+            b.add(f"r = h({argexpr})", self.site(f"call-with-two-targets/{how}"))
+        else:
+            kb = Class(self.name("K"), t)
+            ks = Class(self.name("K"), t, [(kb.name, kb)])
+            ks.base_form = {"form": "local", "file": t.relpath, "name": kb.name}
+            for c in (kb, ks):
+                t.decls.append(c)
+                self.classes.append(c)
+            init = Func("__init__", ["self", "a"], t, cls=kb)
+            init.body.add(f"self.fb_{hid} = a")
+            init.ret = None
+            kb.methods.append(init)
+            for c, which, n in ((kb, "first", 1), (ks, "second", 2)):
+                m = Func(f"go_{hid}", ["self", "p"], t, cls=c)
+                m.body.add(inner_text.format(n), self.site(f"{kind_in}/in-{which}-target", inner_callee, deps=argdeps))
+                m.ret = "r"
+                c.methods.append(m)
+                self.cand_role[m.qual] = which
+            b.add("if flag > 0:")
+            b.ind += 1
+            self.class_forms.setdefault(kb.name, []).append({"form": "local", "file": t.relpath, "name": kb.name})
+            cs1 = self.site("constructor", f"{kb.name}.__init__", recv=kb.name)
+            b.add(f"o = {kb.name}(1)", cs1)
+            b.ind -= 1
+            b.add("else:")
+            b.ind += 1
+            self.class_forms.setdefault(ks.name, []).append({"form": "local", "file": t.relpath, "name": ks.name})
+            cs2 = self.site("constructor-inherited-init", f"{kb.name}.__init__", recv=ks.name)
+            b.add(f"o = {ks.name}(1)", cs2)
+            b.ind -= 1
+            b.add(f"r = o.go_{hid}({argexpr})", self.site(f"call-with-two-targets/{how}", deps=[cs1, cs2]))
+        pick.ret = "r"
+        t.decls.append(pick)
+        expr, form = self.ref(ctx.mod, t, pick.name)
+        for fl in ([1, 0] if rng.random() < 0.5 else [0, 1]):
+            self.call_line(ctx, f"{expr}({fl})", self.nsite(form, pick.qual))
+
+    def e_reexport(self, ctx, depth):
+        """a name reached through a module that only RE-EXPORTS it: ctx.mod does `from facade import N`, facade does `from defs
+        import N` and nothing else with it. Function call, class instantiation (own constructor) + method call."""
+        rng = self.rng
+        later = [m for m in self.mods if m.idx > ctx.mod.idx]
+        if len(later) < 2 or self.js:
+            return self.e_direct(ctx, depth)
+        facade, defs = sorted(rng.sample(later, 2), key=lambda m: m.idx)
+        what = rng.choice(["function", "class"])
+
+        def bring(name):
+            imp1 = f"from {defs.dotted} import {name}"
+            if imp1 not in facade.imports:
+                facade.imports.append(imp1)
+            al = rng.random() < 0.3
+            bound = f"al_{name}" if al else name
+            imp2 = f"from {facade.dotted} import {name}" + (f" as {bound}" if al else "")
+            if imp2 not in ctx.mod.imports:
+                ctx.mod.imports.append(imp2)
+            return bound, {"form": "from-import-alias" if al else "from-import", "file": ctx.mod.relpath, "name": bound}
+        if what == "function":
+            f = self.new_func(defs, "rx", ["x"], depth, reusable=False)
+            bound, ref = bring(f.name)
+            self.call_line(ctx, f"{bound}({self.arg(ctx)})", self.site("re-exported-function", f.qual, uses=ref))
+        else:
+            hid = self.name("h")
+            c = Class(self.name("K"), defs)
+            defs.decls.append(c)
+            self.classes.append(c)
+            init = Func("__init__", ["self", "a"], defs, cls=c)
+            init.body.add(f"self.fa_{hid} = a")
+            init.ret = None
+            c.methods.append(init)
+            self.new_method(c, f"own0_{hid}", ["self", "x"], depth)
+            bound, ref = bring(c.name)
+            self.class_forms.setdefault(c.name, []).append(ref)
+            cs = self.site("constructor/re-exported-class", f"{c.name}.__init__", recv=c.name, uses=ref)
+            o = ctx.body.var("o")
+            ctx.body.add(f"{o} = {bound}({self.arg(ctx)})", cs)
+            self.call_line(ctx, f"{o}.own0_{hid}({self.arg(ctx)})", self.site("method", None, recv=c.name, meth=f"own0_{hid}", deps=[cs]))
 
     def e_twocand(self, ctx, depth):
         """a callback argument that holds TWO candidate values at the call: chosen on the two branches of an if/else, a bound
@@ -1051,6 +1176,8 @@ def event_kind(project, site, callee_qual, recv_classes=(), under_try=False, cal
     be found (provenance_tag) that tag replaces the control refinement, so that the vocabulary stays closed."""
     kind = site["kind"]
     classes = project["classes"]
+    if kind.startswith("call-with-two-targets"):
+        kind = f"{kind}/{project.get('candidates', {}).get(callee_qual.replace('constructor', '__init__'), 'unknown')}-target-runs"
     if kind.startswith("callback-with-two-candidate-values"):
         which = project.get("candidates", {}).get(callee_qual) or project.get("candidates", {}).get(callee_qual.replace("constructor", "__init__"))
         kind = f"{kind}/{which or 'unknown'}-candidate-runs"
